@@ -28,7 +28,7 @@ CHECKS = {
             'partial correctness only: next() polls forever at a quiet end of file by design (exec_allows_no_decreases_clause)',
             'the for-loop in FollowFileExecutor::execute that feeds each delivered line to the engine is not under contract',
         ],
-        'unproved': ['FollowFileExecutor::execute (loop over the iterator, output printing)'],
+        'unproved': ['output printing (OutputPrinter)', 'OS file semantics (truncation, rotation)'],
     },
     'C16': {
         'verus_units': [],
@@ -71,7 +71,7 @@ CHECKS['C03'] = {
     'unproved': ['evaluate arms FunctionCall (all functions), TypeConversion, Aggregate', 'parser_tree_converter lowering, projection naming'],
 }
 CHECKS['C09'] = {
-    'verus_units': ['eval', 'follow', 'select', 'engine', 'extract', 'parser', 'tokenizer', 'executor', 'aggregate', 'aggdispatch', 'aggresult', 'join', 'joinload', 'mapping'],
+    'verus_units': ['eval', 'follow', 'select', 'engine', 'extract', 'parser', 'tokenizer', 'converter', 'executor', 'aggregate', 'aggdispatch', 'aggresult', 'join', 'joinload', 'mapping'],
     'only_safety': True,
     'clause_prefixes': ['c09'],
     'technique': 'contract-based deductive verification (Verus): absence of arithmetic overflow, division by zero, failed callee preconditions (unwrap, indexing, unreachable!) in every extracted function',
@@ -80,7 +80,7 @@ CHECKS['C09'] = {
     'level': 'proof',
     'explanation': 'Verus generates, for every extracted function, the obligations that each arithmetic operation fits its type, each divisor is non-zero, each index is in bounds and each callee precondition (including `requires false` of the unimplemented!/panic! stand-in) holds; this check counts exactly those.',
     'trusted': COMMON_TRUST,
-    'unproved': ['OutputPrinter::print', 'AggregateExecutionEngine::execute_result / accept_group', 'ValueType::parse timestamp branch (Local time zone)', 'Value::json_value'],
+    'unproved': ['OutputPrinter::print', 'accept_group', 'Parser::parse_* grammar functions, parser_tree_converter', 'ValueType::parse (chrono, Local time zone)', 'Value::json_value', 'evaluate arms FunctionCall / TypeConversion'],
 }
 
 CHECKS['C08'] = {
@@ -98,7 +98,7 @@ CHECKS['C08'] = {
     'level': 'proof',
     'explanation': 'The abstract DISTINCT memory is the sequence of remembered tuples; membership is pointwise value_eq. The contract of execute is stated over that view and over sem_eval of the projections.',
     'trusted': COMMON_TRUST + ['fnv::FnvHashSet contains/insert as a mathematical set over Eq classes of Vec<Value> (assumed; relies on C16 laws)'],
-    'unproved': ['execute_result: percentile refresh loop, extract_result_rows_by_column, accept_group'],
+    'unproved': ['accept_group (HAVING evaluation)', 'iter_mut loop headers of the PERCENTILE refresh'],
 }
 
 CHECKS['C07'] = {
@@ -110,7 +110,7 @@ CHECKS['C07'] = {
     'level': 'proof',
     'explanation': 'update_limit is verified verbatim; execute is verified verbatim against callee contracts; lemma_limit_prefix turns the per-call contract into "first n rows of the unlimited result".',
     'trusted': COMMON_TRUST + ['join branch of execute_select/execute_aggregate* replaced by an assumed stub (rule E3b) because Verus rejects FnMut closures that capture &mut state'],
-    'unproved': ['join branches (execute_join closures)'],
+    'unproved': ['join branches of execute_select / execute_aggregate (stubbed)'],
 }
 CHECKS['C06'] = {
     'verus_units': ['engine', 'extract'],
@@ -132,7 +132,7 @@ CHECKS['C11'] = {
     'level': 'proof',
     'explanation': 'Dispatch in ExecutionEngine::execute and AggregateExecutionEngine::execute (unit engine) over an abstract state machine (agg_step, agg_table); execute_result/refresh-cell (unit aggdispatch) and the row loop of execute_result (unit aggresult) discharge the part of "agg_table is a function of the state" that lies in extracted code.',
     'trusted': COMMON_TRUST + ['AggregateExecutionEngine::execute_update / execute_result as an abstract state machine (agg_step, agg_table)'],
-    'unproved': ['extract_result_rows_by_column / accept_group purity', 'iteration order and coverage of the iter_mut loops in execute_result'],
+    'unproved': ['accept_group purity', 'iteration order and coverage of the iter_mut loops in execute_result'],
 }
 
 CHECKS['C01'] = {
@@ -144,7 +144,7 @@ CHECKS['C01'] = {
     'level': 'proof',
     'explanation': 'sem_column / sem_row are written from the property statement over an abstract match result; the extracted code is proved equal to them, loop invariants spliced by ordinal.',
     'trusted': COMMON_TRUST + ['regex crate semantics behind stand-ins', 'ValueType::parse, str::trim, chrono NaiveDate/NaiveTime construction as uninterpreted functions'],
-    'unproved': ['ParsingInput::new', 'timestamp month-name branch', 'parse_create_table / parser_tree_converter (definition syntax)'],
+    'unproved': ['timestamp month-name branch', 'parse_create_table / parser_tree_converter (definition syntax)', 'regex crate (matching)'],
 }
 CHECKS['C02'] = {
     'verus_units': ['extract'],
@@ -170,7 +170,7 @@ CHECKS['C13'] = {
     'unproved': ['reference-grouping correctness of the whole expression parser', 'parenthesised tuple / one-element IN handling', 'keyword table content (KEYWORDS) and IS NOT / NOT IN keyword fusion'],
 }
 CHECKS['C14'] = {
-    'verus_units': ['parser', 'tokenizer'],
+    'verus_units': ['parser', 'tokenizer', 'converter'],
     'clause_prefixes': ['c14'],
     'technique': 'contract-based deductive verification (Verus) of tokenize (with its local TokenizerState), TokenLocation::extract_near and the parser\'s token cursor (Parser::new/next/current/current_location/create_error/expect_token/expect_and_consume_token, ParserError::new) extracted from /repo',
     'claim': 'Proof for every text that tokenize cannot panic, that the line/column it keeps are the position of the consumed prefix, that every token and every tokenizer error is located inside the text (the position of some offset 0..=len) and that the token vector ends with Token::End; proof that TokenLocation::extract_near cannot panic for any location and text (every word range lies inside the line, no index underflow); proof (cursor kernel) that once the first next() succeeded the parser cursor stays inside the token vector, next() at the end is an error and not a step, current()/current_location() never index out of bounds and every error created carries the location of a real token. "Any text yields a statement or a located error" for the recursive-descent grammar functions and the tree converter is NOT decided.',
@@ -208,12 +208,12 @@ CHECKS['C04'] = {
     'verus_units': ['aggregate', 'aggdispatch', 'aggresult'],
     'clause_prefixes': ['c04', 'value.modify', 'value.map-numeric', 'value.default'],
     'technique': 'contract-based deductive verification (Verus): GroupAggregator::default / update (all arms) / is_null, ensure_sum_fits and Value::modify_same_type_numeric_nullable / map_numeric extracted from /repo against step functions written from the property text',
-    'claim': 'Proof (fold kernel and per-group dispatch) for all states and values that one update step of each running aggregate is exactly the documented step and that update_aggregate folds a row into the cell of ITS group and aggregate index only (get_group: an existing cell is returned as it is, the default is computed only for a missing cell; COUNT / COUNT(DISTINCT) add one exactly for qualifying rows; MIN / MAX by value order; NULL arguments never wipe an accumulated value; ARRAY_AGG appends in arrival order; STRING_AGG joins with the delimiter); execute_update leaves the state untouched for rows that fail WHERE. Step level: SUM / AVG / STDDEV-VARIANCE bookkeeping add the value exactly or report an error (never wrap), the first value only initialises, AVG shows sum/count, PERCENTILE collects every value, BOOL_AND / BOOL_OR combine two-valued, COUNT(DISTINCT) counts a value only at its first occurrence; the unimplemented!() arms of default are unreachable under its precondition. Table assembly (unit aggresult): execute_result zips the value columns position by position into rows (no value from another position), under the stated assumption that the columns are rectangular - which COUNT over an all-NULL group violates (known finding). update_aggregates (unit aggdispatch): the group key of a row is the values of its GROUP BY expressions on that row (map_result_vec is verified: one result per element in order, or an error), a row without a key is an error that aggregates nothing, and every select-list aggregate is dispatched exactly once, in order, under its own index for that key (fold_select_list); execute_update folds exactly the rows that pass WHERE. PERCENTILE (update_value) shows the value at rank min(floor(p*n), n-1) of the sorted values of the group, never one past the end, and the refresh of a shown cell overwrites exactly that cell. NOT decided: the HAVING aggregates inside update_aggregates (closure over &mut self, stubbed), the column extraction ( extract_result_rows_by_column, accept_group) - "one row per group, no cell in another group\'s row", HAVING and the PERCENTILE index are outside the claim.',
+    'claim': 'Proof (fold kernel and per-group dispatch) for all states and values that one update step of each running aggregate is exactly the documented step and that update_aggregate folds a row into the cell of ITS group and aggregate index only (get_group: an existing cell is returned as it is, the default is computed only for a missing cell; COUNT / COUNT(DISTINCT) add one exactly for qualifying rows; MIN / MAX by value order; NULL arguments never wipe an accumulated value; ARRAY_AGG appends in arrival order; STRING_AGG joins with the delimiter); execute_update leaves the state untouched for rows that fail WHERE. Step level: SUM / AVG / STDDEV-VARIANCE bookkeeping add the value exactly or report an error (never wrap), the first value only initialises, AVG shows sum/count, PERCENTILE collects every value, BOOL_AND / BOOL_OR combine two-valued, COUNT(DISTINCT) counts a value only at its first occurrence; the unimplemented!() arms of default are unreachable under its precondition. Result path (unit aggresult): extract_result_rows_by_column builds one named column per select-list aggregate with exactly one value per group in key order, each taken from that group (its key component, or its own cell through the select-list expression; COUNT 0 / NULL when no row of the group qualified), and execute_result zips the columns position by position into rows, applies HAVING per group and DISTINCT among the kept rows. Known findings: a group none of whose aggregates got a qualifying row (COUNT(c), STRING_AGG(c) with c NULL throughout) is missing from the result. update_aggregates (unit aggdispatch): the group key of a row is the values of its GROUP BY expressions on that row (map_result_vec is verified: one result per element in order, or an error), a row without a key is an error that aggregates nothing, and every select-list aggregate is dispatched exactly once, in order, under its own index for that key (fold_select_list); execute_update folds exactly the rows that pass WHERE. PERCENTILE (update_value) shows the value at rank min(floor(p*n), n-1) of the sorted values of the group, never one past the end, and the refresh of a shown cell overwrites exactly that cell. NOT decided: the HAVING aggregates inside update_aggregates (closure over &mut self, stubbed), accept_group (HAVING evaluation is a stand-in), and that the dispatch match of update_aggregate selects the proved arm.',
     'note': 'Trusted: HashSet<Value> as a set under Value equality (VValueSet), f64 arithmetic and chrono Duration arithmetic as uninterpreted functions, the variance formula closure and the INTERVAL squaring closure are stubbed (assumed). The IEEE product and the float-to-usize cast of the PERCENTILE rank are an uninterpreted function (percentile_position).',
     'level': 'proof',
     'explanation': 'sum_step etc. are the semantic steps; C15 lemmas lift them to order-insensitivity.',
     'trusted': COMMON_TRUST + ['std HashSet<Value> / BTreeMap / HashMap behaviour', 'float and interval arithmetic uninterpreted'],
-    'unproved': ['HAVING aggregates in update_aggregates (visit closure, stubbed branch)', 'extract_result_rows_by_column, accept_group', 'update_aggregate as a whole is linked to its arms only by reading (dispatch match is not extracted)', 'Vec<Value>::sort (sorted permutation stand-in)', 'iter_mut loop headers of execute_result'],
+    'unproved': ['HAVING aggregates in update_aggregates (visit closure, stubbed branch)', 'accept_group (HAVING evaluation)', 'update_aggregate as a whole is linked to its arms only by reading (dispatch match is not extracted)', 'Vec<Value>::sort (sorted permutation stand-in)', 'iter_mut loop headers of execute_result'],
 }
 CHECKS['C15'] = {
     'verus_units': ['aggregate', 'aggdispatch'],
@@ -228,15 +228,15 @@ CHECKS['C15'] = {
 }
 
 CHECKS['C05'] = {
-    'verus_units': ['join', 'joinload'],
+    'verus_units': ['join', 'joinload', 'mapping', 'converter'],
     'clause_prefixes': ['c05', 'row.'],
-    'technique': 'contract-based deductive verification (Verus): JoinedTableData::add_row / get_joined_row, execute_join and extend_option_result_row extracted from /repo; the index is a specified stand-in, the per-partner calls are tracked by ghost state and an in-body assertion',
-    'claim': 'Proof for all rows, indexes and join clauses that the partners of a queried row are exactly the rows of the joined file stored under a key EQUAL to its join value and not NULL, in joined-file order; that the statement is run once per partner in that order and every result row is kept in order; that a row without partner yields nothing for INNER (or where OUTER is not allowed) and exactly one run on an all-NULL partner for OUTER; that a missing join column is an error. Loading the joined file (JoinedTableData::execute) is proved in unit joinload to run every line once, in order, through the SELECT and to store each resulting row under its join value; a missing file / table / column is an error. NOT covered: name resolution / `*` order for joined rows (create_joined_column_mapping), ON a.x = b.y side resolution (transform_join).',
-    'note': 'Trusted: std HashMap<Value, Vec<Row>> as buckets of value-equal keys in insertion order (VRowIndex; relies on C16), TableDefinition::index_for, create_joined_column_mapping as a constructor stand-in, FnMut callback: Verus cannot relate results of successive FnMut calls to one closure value, so "rows of the output = results of the calls" is carried by ghost state inside the body (loop invariant + assertion), not by the postcondition.',
+    'technique': 'contract-based deductive verification (Verus): JoinedTableData::add_row / get_joined_row / execute, execute_join, extend_option_result_row and create_joined_column_mapping extracted from /repo; the index is a specified stand-in, the per-partner calls are tracked by ghost state and an in-body assertion',
+    'claim': 'Proof for all rows, indexes and join clauses that the partners of a queried row are exactly the rows of the joined file stored under a key EQUAL to its join value and not NULL, in joined-file order; that the statement is run once per partner in that order and every result row is kept in order; that a row without partner yields nothing for INNER (or where OUTER is not allowed) and exactly one run on an all-NULL partner for OUTER; that a missing join column is an error. Loading the joined file (JoinedTableData::execute) is proved in unit joinload to run every line once, in order, through the SELECT and to store each resulting row under its join value; a missing file / table / column is an error. create_joined_column_mapping (unit mapping) is proved to bind the queried row\'s names first, then every joined column under its plain name unless that name is taken and always under its table-qualified name, and to list for `*` the queried table\'s columns followed by the joined table\'s (a clashing one by its qualified name); lemmas: queried columns keep their values, joined columns are addressable by their qualified names and, when nothing clashes, by their plain names. transform_join (unit converter) assigns the two sides of ON a.x = b.y by table name, not by position: the side of the queried table gives the joiner column, the other side must name the joined table and gives the joined column, anything else is an error.',
+    'note': 'Trusted: std HashMap<Value, Vec<Row>> as buckets of value-equal keys in insertion order (VRowIndex; relies on C16), TableDefinition::index_for, HashMapColumnProvider / HashSet<String> stand-ins (Table-scope map + ordered key list), in unit join create_joined_column_mapping is a constructor stand-in (its body is proved in unit mapping), FnMut callback: Verus cannot relate results of successive FnMut calls to one closure value, so "rows of the output = results of the calls" is carried by ghost state inside the body (loop invariant + assertion), not by the postcondition.',
     'level': 'proof',
     'explanation': 'partners(data, key) is the spec from the property text; get_joined_row is proved equal to it; execute_join is proved to call the statement for exactly those rows.',
-    'trusted': COMMON_TRUST + ['std HashMap bucket semantics', 'create_joined_column_mapping / transform_join not extracted'],
-    'unproved': ['create_joined_column_mapping', 'transform_join'],
+    'trusted': COMMON_TRUST + ['std HashMap bucket semantics'],
+    'unproved': ['parse_join_clause (syntax of the JOIN clause)', 'HashMapColumnProvider::get (scope lookup chain)'],
 }
 
 NOT_APPLICABLE = {
